@@ -239,7 +239,7 @@ func c05Trees(tier string) []*xnode {
 }
 
 func runC05(c *Check) {
-	c.Rule = "lowerable constructs (operator table incl. optional chain/nullish/logical+exponent assignment/spread/destructuring/classes/async/generators; ~130 lowering templates x operand trees) in every statement context, with probes and universal logging proxies as operands; each program is run natively in Node 22 and compared with esbuild's output for targets es2015..es2022, esnext, minified variants and esnext with each single feature marked unsupported; esbuild errors end a case; distinct = distinct outputs"
+	c.Rule = "lowerable constructs (operator table incl. optional chain/nullish/logical+exponent assignment/spread/destructuring/classes/async/generators; ~130 lowering templates x operand trees) in every statement context, with probes and universal logging proxies as operands; each program is run natively in Node 22 and compared with esbuild's output for targets es2015..es2022, esnext, minified variants and esnext with each single feature marked unsupported; esbuild errors end a case; distinct = distinct outputs; all tagged/untagged templates of <= 3 chunks over 15 chunk texts under 6 lowering/folding configurations; static/computed constructor methods next to lowered fields"
 	c.Assump = []string{"Node 22 (V8) executes the original natively", "microtask-turn counts are not observed (each async case is awaited to completion, log compared per case)", "ES5 targets, decorators and `using` are outside this check (no native reference available for using in Node 22)", "function/class .name of lowered anonymous classes is not observed"}
 	pool := NewNodePool("22")
 	defer pool.Close()
